@@ -574,3 +574,62 @@ Proof.
   fold (zoff z t) in B1. fold (zoff z e) in B2.
   split; zconsts; lia.
 Qed.
+
+(* ------------------------------------------------------------------ (b) assembled *)
+Theorem date_inverts_wall_clock : forall B D z w, zone_okb B D z = true -> 2 * B <= D ->
+  let r := resolve z w in
+  (forall y mo d h mi s ns, 1 <= mo <= 12 -> 0 <= ns < NS ->
+     go_date_z z y mo d h mi s ns = resolve z (days_from_civil y mo d * DAY_S + (h * 3600 + mi * 60 + s)) * NS + ns) /\
+  r = w - off_at z (w - off_at z w) /\
+  (forall u, wall z u = w -> wall z r = w /\ (r = u <-> off_at z (w - off_at z w) = off_at z u)) /\
+  (wall_regular z w = true ->
+     wall z r = w /\ (forall v, v < r -> wall z v < w) /\ (forall v, r < v -> w < wall z v)) /\
+  ((forall u, wall z u <> w) ->
+     exists s o o', o < o' /\ s + o <= w < s + o' /\
+       (forall v, w - B <= v <= w + B -> off_at z v = if v <? s then o else o') /\
+       ((s <= w - off_at z w /\ r = w - o' /\ r < s /\ wall z r = w - (o' - o)) \/
+        (w - off_at z w < s /\ r = w - o /\ s <= r /\ wall z r = w + (o' - o)))).
+Proof.
+  intros B D z w Hb HD r. pose proof (zone_okb_ok B D z Hb) as HZ. pose proof HZ as (_ & _ & _ & HS).
+  assert (R : r = w - off_at z (w - off_at z w)) by (subst r; apply resolve_cf; exact HS).
+  split; [intros; apply go_date_z_valid; assumption|]. split; [exact R|].
+  split; [|split].
+  - intros u Hu. unfold wall in *.
+    pose proof (date_exists (off_at z) B D (fun v => off_at_bound B D z v HZ) (fun a => off_at_window B D z a HZ) HD w u Hu) as G.
+    cbv zeta in G. rewrite <- R in G. split; [exact G|]. rewrite R. lia.
+  - intro HR. exact (resolve_regular B D z w HZ HD HR).
+  - intro Hn. unfold wall in *.
+    destruct (date_gap (off_at z) B D (fun v => off_at_bound B D z v HZ) (fun a => off_at_window B D z a HZ) HD w Hn)
+      as (s & o & o' & G1 & G2 & G3 & G4).
+    rewrite <- R in G4. exists s, o, o'. tauto.
+Qed.
+
+(* ------------------------------------------------------------------ (g) the code as written fails on the New_York table *)
+Lemma relative_week_168h_refuted :
+  exists z t w k, zone_okb 64800 129600 z = true /\ 0 <= w <= 6 /\
+    z_date_of z (z_get_relative_start_of_week_168h z t w k) = (2024, 2, 27) /\
+    z_date_of z (z_get_relative_start_of_week z t w k) = (2024, 3, 5) /\
+    z_weekday_of z (z_get_relative_start_of_week z t w k) = w /\ z_get_relative_start_of_week z t w k <= t /\
+    z_get_relative_start_of_week_168h z t w k < z_get_relative_start_of_week z t w k.
+Proof.
+  exists ny_table, (1710131400 * NS), 2, 0. vm_compute. repeat split; try reflexivity; discriminate.
+Qed.
+
+Lemma week_window_168h_refuted :
+  exists z t, zone_okb 64800 129600 z = true /\
+    ~ (pstart (z_new_period_window_week_168h z t) <= t < pend (z_new_period_window_week_168h z t)) /\
+    pstart (z_new_period_window_week z t) <= t < pend (z_new_period_window_week z t).
+Proof.
+  exists ny_table, (1730694600 * NS). split; [vm_compute; reflexivity|]. split.
+  - intros [_ H]. vm_compute in H. discriminate.
+  - vm_compute. split; [discriminate|reflexivity].
+Qed.
+
+Lemma next_moment_adddate_refuted :
+  exists z t h m s, zone_okb 64800 129600 z = true /\ 0 <= h < 24 /\ 0 <= m < 60 /\ 0 <= s < 60 /\
+    z_clock_of z (z_get_next_moment_adddate z z t h m s) = (1, 30, 0) /\
+    z_clock_of z (z_get_next_moment z z t h m s) = (h, m, s) /\
+    z_date_of z (z_get_next_moment z z t h m s) = z_date_of z (z_get_next_moment_adddate z z t h m s).
+Proof.
+  exists ny_table, (1710057600 * NS), 2, 30, 0. vm_compute. repeat split; try reflexivity; discriminate.
+Qed.
